@@ -52,6 +52,10 @@ CATALOGUE = {
                    params=dict(beta=8.0 / 3.0, sigma=10.0, rho=28.0), x0=[1.0, 1.0, 1.0], T=0.25),
     # a slowly decaying fast rotation: one long gap between output times costs lsoda thousands of internal steps
     "Spiral": dict(states=["x", "y"], rhs=["-a*x + w*y", "-w*x - a*y"], params=dict(a=0.03, w=5.0), x0=[1.0, 0.5], T=100.0),
+    # a seasonally forced model: the right-hand side depends on t (common_models writes 3.14159 for pi)
+    "SIS_Periodic": dict(states=["S", "I"], time=True,
+                         rhs=["-beta0*(1-delta*cos(2*3.14159*t/period))*S*I/N + gamma*I", "beta0*(1-delta*cos(2*3.14159*t/period))*S*I/N - gamma*I"],
+                         params=dict(gamma=1.0, beta0=2.0, delta=0.6, period=5.0, N=1.0), x0=[0.9, 0.1], T=8.0),
     "vanDerPol": dict(states=["y", "x"], rhs=["x", "mu*(1 - y*y)*x - y"], params=dict(mu=1.0), x0=[2.0, 0.0], T=4.0),
 }
 
@@ -138,6 +142,7 @@ def rhs_exprs(spec):
     import sympy
     names = list(spec["states"]) + list(spec["params"])
     loc = {k: sympy.Symbol(k) for k in names}
+    loc["t"] = sympy.Symbol("t")
     if spec["kind"] == "catalogue":
         ex = [sympy.sympify(r, locals=loc) for r in CATALOGUE[spec["name"]]["rhs"]]
     else:
@@ -158,8 +163,8 @@ def rhs_exprs(spec):
 def rhs_func(spec):
     import sympy
     ex, syms = rhs_exprs(spec)
-    f = sympy.lambdify(syms, ex, modules="math")
-    return lambda t, y: np.array(f(*y), dtype=float)
+    f = sympy.lambdify([sympy.Symbol("t")] + syms, ex, modules="math")
+    return lambda t, y: np.array(f(t, *y), dtype=float)
 
 
 def reference(spec, grid):
@@ -182,9 +187,9 @@ def reference_mp(spec, grid, digits=30):
     """second opinion on the reference: mpmath Taylor-series solver"""
     import mpmath, sympy
     ex, syms = rhs_exprs(spec)
-    f = sympy.lambdify(syms, ex, modules="mpmath")
+    f = sympy.lambdify([sympy.Symbol("t")] + syms, ex, modules="mpmath")
     mpmath.mp.dps = digits
-    sol = mpmath.odefun(lambda t, y: f(*y), mpmath.mpf(spec["t0"]), [mpmath.mpf(v) for v in spec["x0"]], tol=mpmath.mpf(10) ** (-18))
+    sol = mpmath.odefun(lambda t, y: f(t, *y), mpmath.mpf(spec["t0"]), [mpmath.mpf(v) for v in spec["x0"]], tol=mpmath.mpf(10) ** (-18))
     return np.array([[float(v) for v in sol(mpmath.mpf(float(t)))] for t in grid])
 
 
@@ -512,6 +517,9 @@ def run(ck):
              # (h) a stiff system over five decades of time (lsoda's stiff method uses the Jacobian); a solution that goes negative
              (dict(spec_catalogue("Robertson"), t0=0.0), [0.4, 4.0, 40.0, 400.0, 4000.0]),
              (dict(spec_catalogue("FitzHugh"), t0=0.0), [0.5, 1.0, 2.0, 4.0, 6.0]),
+             # (i) a forced model solved from an initial time that is not a multiple of the forcing period
+             (dict(spec_catalogue("SIS_Periodic"), t0=3.0), [3.5, 4.0, 5.5, 7.0, 11.0]),
+             (dict(spec_catalogue("SIS_Periodic"), t0=0.0), [0.5, 1.0, 2.5, 4.0, 8.0]),
              # (f) the first requested time is the initial time itself (np.linspace(t0, T, n)): one row per requested time
              (dict(spec_catalogue("SIR_norm"), t0=1.0, _grid_from_t0=True), [1.0, 2.0, 3.5, 7.0]),
              # (g) head counts: one infective in sixty million (a small driving compartment next to a huge one)
